@@ -569,8 +569,21 @@ pub fn query(g: &G, t: &mut Toks, o: &mut Out) {
             // third argument: option combination 0 = distances only (fast path), 1 = first_only + paths, 2 = all paths
             let (x, w, opt) = (t.i(), t.i() != 0, t.i());
             let f = if w { wfactor() } else { 1.0 };
-            let (fo, wp) = match opt { 1 => (true, true), 2 => (false, true), _ => (false, false) };
-            let r = guard(|| graphrs::algorithms::shortest_path::dijkstra::single_source(g, w, x, None, None, fo, wp));
+            let (fo, wp) = match opt { 1 => (true, true), 2 | 4 => (false, true), _ => (false, false) };
+            // options 3 / 4: a cutoff EQUAL to a distance the search itself reports (the median of the distinct
+            // unrestricted distances), without and with paths: "summed weight <= cutoff" keeps that node
+            let mut cutoff: Option<f64> = None;
+            if opt >= 3 {
+                if let Some(Ok(m0)) = guard(|| graphrs::algorithms::shortest_path::dijkstra::single_source(g, w, x, None, None, false, false)) {
+                    let mut ds: Vec<f64> = m0.values().map(|i| i.distance).collect();
+                    ds.sort_by(|a, b| a.partial_cmp(b).unwrap());
+                    ds.dedup();
+                    if !ds.is_empty() {
+                        cutoff = Some(ds[ds.len() / 2]);
+                    }
+                }
+            }
+            let r = guard(|| graphrs::algorithms::shortest_path::dijkstra::single_source(g, w, x, None, cutoff, fo, wp));
             o.obs(5001, &[vec![res_code(&r)]], &[]);
             if let Some(Ok(m)) = r {
                 let mut kv: Vec<(i64, f64)> = m.iter().map(|(k, i)| (*k, i.distance / f)).collect();
